@@ -186,7 +186,7 @@ Lemma resolve_sinv body : forall st st' r, SInv st -> resolve st body = (st', r)
 Proof.
   induction body as [|[slot f] rest IH]; intros st st' r H; cbn [resolve].
   - intro E. inversion E; subst. split; [exact H|]. split; [|auto]. intros targets Et. inversion Et. intros t [].
-  - destruct (slot_master st slot) as [addr|]; [|intro E; inversion E; subst; split; [exact H|]; split; [discriminate | auto]].
+  - destruct f as [addr|]; [|intro E; inversion E; subst; split; [exact H|]; split; [discriminate | auto]].
     destruct (find_pool st addr) as [p|]; [|intro E; inversion E; subst; split; [exact H|]; split; [discriminate | auto]].
     destruct (pool_get st p) as [st1 [s|]] eqn:Eg.
     + destruct (pool_get_sinv _ _ _ _ H Eg) as (A & B & C).
@@ -223,7 +223,7 @@ Proof.
   - destruct (cf_password (cfg st)); [eapply SInv_same; [apply same_s_local_reply | exact H]|].
     destruct (cm_body m) as [|[s0 f0] body]; [exact H|].
     destruct (beqb _ _); (eapply SInv_same; [apply same_s_local_reply | exact H]).
-  - destruct (resolve st (by_slot (cm_body m))) as [st1 [targets|e]] eqn:Er.
+  - destruct (resolve st (route_plan st (cm_type m) (by_slot (cm_body m)))) as [st1 [targets|e]] eqn:Er.
     2:{ eapply SInv_same; [apply same_s_local_reply | exact H]. }
     destruct (resolve_sinv _ _ _ _ H Er) as (A & B & _). specialize (B targets eq_refl).
     match goal with |- SInv (match lookup c (clients ?x) with _ => _ end) => set (st3 := x) end.
@@ -455,7 +455,7 @@ Proof. intro H; inversion H; reflexivity. Qed.
 
 Theorem step_sinv st e st' : SInv st -> step st e = ROk st' -> SInv st'.
 Proof.
-  intros H. destruct e as [c adm|c b totals|order|s b|c|s| |s|nodes newslots]; cbn [step].
+  intros H. destruct e as [c adm|c b totals|order|s b|c|s| |s|nodes newslots|ch]; cbn [step].
   - destruct (lookup c (clients st)); intro E; apply ROk_inj in E; subst st'; [exact H|].
     eapply SInv_same; [apply same_s_set_client | exact H].
   - intro E; apply ROk_inj in E; subst st'. apply ensure_dials_sinv. unfold client_data.
@@ -471,6 +471,7 @@ Proof.
     destruct (pool_get st p) as [st1 [s1|]] eqn:Eg; destruct (pool_get_sinv _ _ _ _ H Eg) as (A & _); intro E; apply ROk_inj in E; subst st'.
     + eapply SInv_same; [apply same_s_set_tasks | exact A].
     + exact A.
+  - intro E; apply ROk_inj in E; subst st'. eapply SInv_same; [|exact H]. repeat split.
   - intro E; apply ROk_inj in E; subst st'. eapply SInv_same; [|exact H]. repeat split.
 Qed.
 
